@@ -390,3 +390,43 @@ CONTRACTS = [
              cases=[([(0, 2)], 1), ([(1, 2), (0, 2)], 1), ([(-1, 0), (5, 6), (0, 1)], 1), ([(0, 1), (3, 4)], 2)],
              bounded='rank <= 3, extents <= 3, concrete bounds (cell values symbolic)'),
 ]
+
+
+# ------------------------------------------------------------------ constants visible at the stop point
+
+class _ConstExpr:
+    def __init__(self, v):
+        self.v = v
+
+    def eval(self):
+        return self.v
+
+
+def body_eval_const(h, where, indexed):
+    """a CONST of the current routine shadows a module-level CONST of the same name; CONSTs take no subscripts/fields"""
+    ctx = Ctx()
+    r = Rtn()
+    r.context = ctx
+    lv, gv = h.int('local_value', -100, 100), h.int('global_value', -100, 100)
+    r.local_consts = {'k': _ConstExpr(lv)} if where in ('local', 'both') else {}
+    gc = {'k': (Type.INTEGER, gv)} if where in ('global', 'both') else {}
+    r.params, r.local_vars = {}, {}
+    cpu = new_cpu(h, [])
+    F = Seg(h, 'frame', cls=CallFrame, other_type=CT.INTEGER, size=1)
+    F.seg.code_start = 0
+    cpu.cur_frame = F.seg
+    cpu.globals_segment = Seg(h, 'glob', other_type=CT.INTEGER, size=0).seg
+    ev = mk_eval(h, cpu, r, global_consts=gc)
+    out = h.call(ev.eval_lvalue, _Lv('k', Type.INTEGER, array_indices=[1] if indexed else []))
+    if indexed:
+        h.prove('subscripted_constant_is_an_error', out.raised((EvalError, ValueError)), detail=repr(out))
+        return
+    want = lv if where in ('local', 'both') else gv
+    h.prove('constant_value_with_local_shadowing', out.returned and same(out.value, want), detail=repr(out))
+    F.prove_only_written(h, 'memory_unchanged', [])
+
+
+CONTRACTS += [
+    Contract('eval.const', ['C13'], ['qvm.eval:QvmEval.eval_lvalue'], body_eval_const,
+             cases=[(w, i) for w in ('local', 'global', 'both') for i in (False, True)]),
+]
